@@ -47,14 +47,26 @@ def _level(d):
 INPUT = _level(2)      # every Map item is again an object with $.flag and $.items
 
 
+ODD_NAMES = ["Result", "Parameters", "ItemSelector", "ResultSelector", "Next", "States", "Branches", "Iterator", "ItemProcessor", "Catch", "Retry", "Default", "Choices", "End", "Type",
+             "StartAt", "x.y", "*", "q[0]", "a b", "it's", "$", "@", "a,b", "..", "e\u0301"]
+
+
 # ------------------------------------------------------------ base machines
 class G:
     def __init__(self, draw):
         self.draw = draw
         self.n = 0
+        self.used = set()
 
     def name(self, kind):
         self.n += 1
+        # state names are arbitrary strings: now and then one that is also an ASL field name, or that has characters with a meaning in JSONPath
+        if self.int(0, 7) == 0:
+            odd = [n for n in ODD_NAMES if n not in self.used]
+            if odd:
+                nm = self.pick(odd)
+                self.used.add(nm)
+                return nm
         return "%s%d" % (kind, self.n)
 
     def int(self, a, b):
@@ -152,7 +164,7 @@ def mutate(g, defn):
     nm = g.pick(names)
     s = m["States"][nm]
     op = g.pick(["drop", "drop", "wrong_type", "wrong_type", "retarget", "retarget", "retag", "dup_name", "both", "end_false", "unreachable", "extra_field",
-                 "machine_field", "empty_states", "choice_shape", "rename", "empty_member", "empty_member", "non_object_member", "non_object_member", "dup_name_sibling", "dup_name_sibling"])
+                 "machine_field", "empty_states", "choice_shape", "rename", "empty_member", "empty_member", "non_object_member", "non_object_member", "dup_name_sibling", "dup_name_sibling", "odd_named_defective", "odd_named_defective"])
     label = op
     if op == "drop":
         fields = [f for f in s if f != "Comment"]
@@ -275,6 +287,24 @@ def mutate(g, defn):
             label = "choice_shape:" + how
         else:
             label = "choice_shape:n/a"
+    elif op == "odd_named_defective":
+        # a defective state whose name is also an ASL field name / has JSONPath syntax in it, put on the path the standard input takes ($.flag is true) while
+        # everything else stays reachable as before: the validator has to see the defect whatever the state is called
+        free = [n for n in ODD_NAMES if n not in m["States"]]
+        k = g.pick(free)
+        defect = g.pick(["dangling-next", "branch-dangling-next", "branch-name-clash", "catch-dangling-next"])
+        if defect == "dangling-next":
+            bad = {"Type": "Pass", "Next": "Nowhere"}
+        elif defect == "catch-dangling-next":
+            bad = {"Type": "Task", "Resource": BOOM, "Catch": [{"ErrorEquals": ["States.ALL"], "Next": "Nowhere"}], "Next": m["StartAt"]}
+        elif defect == "branch-dangling-next":
+            bad = {"Type": "Parallel", "Branches": [{"StartAt": "Zq1", "States": {"Zq1": {"Type": "Pass", "Next": "Nowhere"}}}], "Next": m["StartAt"]}
+        else:
+            bad = {"Type": "Parallel", "Branches": [{"StartAt": nm, "States": {nm: {"Type": "Pass", "End": True}}}], "Next": m["StartAt"]}
+        m["States"][k] = bad
+        m["States"]["Zq0"] = {"Type": "Choice", "Choices": [{"Variable": "$.flag", "BooleanEquals": True, "Next": k}], "Default": m["StartAt"]}
+        m["StartAt"] = "Zq0"
+        label = "odd_named_defective:%s" % defect
     elif op == "rename":
         m["States"][nm + "_renamed"] = m["States"].pop(nm)
     elif op == "empty_member":
